@@ -23,14 +23,14 @@ def native(prop, cex):
         return (oc == "failed"), path, out[-1500:]
 
 
-def run_s(prop, tier, seed, ev, ex, plans, accept=None):
+def run_s(prop, tier, seed, ev, ex, plans, accept=None, **opts):
     """plans: [(kinds tuple, U, HU)]; accept(cex)->bool filters which violation kinds belong to this property"""
     import obl_sched as S
     rc, viol = 0, False
     for kinds, U, HU in plans:
         t0 = time.time()
         try:
-            ob = S.ob_schedules(ex, kinds, U, HU, tags=(prop,))
+            ob = S.ob_schedules(ex, kinds, U, HU, tags=(prop,), **opts)
         except Exception as e:
             log(f"[{prop}] schedules {kinds}: INCONCLUSIVE ({type(e).__name__}: {str(e)[:300]})")
             if os.environ.get("VERIF_DEBUG"):
@@ -51,10 +51,13 @@ def run_s(prop, tier, seed, ev, ex, plans, accept=None):
             ev.add(ob.name, "mirsym+z3", "inconclusive", ob.time_s, **info)
             rc = max(rc, 2)
             continue
+        handled = 0
         # every distinct role of counterexample found in this program is handled on its own:
         # a listed finding never masks a different violation of the same property
         for one in [ob] + list(getattr(ob, "others", [])):
             role = getattr(one, "role", None) or S.classify(one.cex)
+            if accept is not None and not accept(role):
+                continue   # a violation of another property's concern (reported by that property's check)
             log(f"[{prop}] {one.name}: solver found a schedule [{role}]: {one.detail}\n    steps: {' '.join(one.cex.get('steps', []))[:700]}")
             reproduced, path, out = native(prop, one.cex)
             kf = vlib.known_finding_for(prop, role)
